@@ -1,3 +1,876 @@
-pub fn run(ctx: vp_core::Ctx) -> ! {
-    ctx.machinery("C10 not built yet")
+//! C10 — shape inference never contradicts execution.
+//!
+//! For every catalogue case (a concrete single-operator model or a short
+//! shape-arithmetic chain with concrete input shapes and values) the engine
+//! derives every *symbolic variant*: each dimension of each graph input is
+//! declared either fixed (`dim_value`) or symbolic (`dim_param`), for all masks
+//! and two naming policies (all symbols distinct / equal sizes share a symbol).
+//! Each variant is encoded as ONNX bytes (vp-onnx), loaded with optimization
+//! off, shape inference is run on the loaded graph
+//! (`rten::verif::infer_shapes::infer_shapes`), and the same model is executed
+//! on the concrete inputs. For every value produced by a node (all are graph
+//! outputs) the inferred rank / fixed dims / symbolic dims (evaluated by the
+//! harness's own evaluator under the instantiation) / constant values are
+//! compared with the executed tensor. Only contradictions count: inference
+//! errors, unknown ranks, synthetic `unknown_N` symbols and failed executions
+//! claim nothing.
+
+use std::collections::{BTreeMap, HashMap};
+use std::sync::Arc;
+
+use rten::verif::infer_shapes::{InferShapeOptions, Shape, infer_shapes};
+use rten::{Dimension, Model, ModelOptions, RunOptions, ThreadPool, Value, ValueOrView};
+use rten_shape_inference::Constant;
+use rten_tensor::Tensor;
+use rten_tensor::prelude::*;
+use vp_core::{Ctx, Json, Tier, json};
+use vp_onnx::{Attr, Dim, Graph, Node, ValueInfo, dtype};
+
+use crate::c10_catalogue;
+use crate::symeval::{self as se, PExpr};
+
+// ---------------------------------------------------------------------------
+// Case description
+
+#[derive(Clone, Debug, PartialEq)]
+pub enum Data {
+    F(Vec<f32>),
+    /// int32 / int64 / bool / uint8 / int8 payloads
+    I(Vec<i64>),
+}
+
+#[derive(Clone, Debug, PartialEq)]
+pub struct TIn {
+    pub name: String,
+    /// ONNX element type code
+    pub dtype: i32,
+    pub shape: Vec<usize>,
+    pub data: Data,
+    /// true: stored as an initializer (inference sees a constant);
+    /// false: graph input (inference sees the declared dims only)
+    pub init: bool,
+}
+
+impl TIn {
+    pub fn numel(&self) -> usize {
+        self.shape.iter().product()
+    }
+    /// Float graph input / initializer filled with small exact values.
+    pub fn f32(name: &str, shape: &[usize]) -> TIn {
+        let n: usize = shape.iter().product();
+        TIn {
+            name: name.into(),
+            dtype: dtype::FLOAT,
+            shape: shape.to_vec(),
+            data: Data::F((0..n).map(|i| ((i % 7) as f32) * 0.5 - 1.0).collect()),
+            init: false,
+        }
+    }
+    pub fn ints(name: &str, dt: i32, shape: &[usize], vals: &[i64]) -> TIn {
+        assert_eq!(shape.iter().product::<usize>(), vals.len(), "TIn::ints {name}");
+        TIn { name: name.into(), dtype: dt, shape: shape.to_vec(), data: Data::I(vals.to_vec()), init: false }
+    }
+    pub fn floats(name: &str, shape: &[usize], vals: &[f32]) -> TIn {
+        assert_eq!(shape.iter().product::<usize>(), vals.len(), "TIn::floats {name}");
+        TIn { name: name.into(), dtype: dtype::FLOAT, shape: shape.to_vec(), data: Data::F(vals.to_vec()), init: false }
+    }
+    /// 1-D int64 vector
+    pub fn vec_i64(name: &str, vals: &[i64]) -> TIn {
+        TIn::ints(name, dtype::INT64, &[vals.len()], vals)
+    }
+    pub fn scalar_i64(name: &str, v: i64) -> TIn {
+        TIn::ints(name, dtype::INT64, &[], &[v])
+    }
+    pub fn as_init(mut self) -> TIn {
+        self.init = true;
+        self
+    }
+    /// Integer-typed data with small values.
+    pub fn int_data(name: &str, dt: i32, shape: &[usize]) -> TIn {
+        let n: usize = shape.iter().product();
+        TIn::ints(name, dt, shape, &(0..n).map(|i| (i % 5) as i64).collect::<Vec<_>>())
+    }
+}
+
+#[derive(Clone, Debug, PartialEq)]
+pub struct Case {
+    /// catalogue entry that produced the case (operator + attribute point)
+    pub entry: String,
+    /// discriminating input feature used in signatures (coarse, per entry)
+    pub feature: String,
+    pub nodes: Vec<Node>,
+    pub inputs: Vec<TIn>,
+    pub opset: i64,
+}
+
+impl Case {
+    pub fn new(entry: &str, feature: &str, nodes: Vec<Node>, inputs: Vec<TIn>) -> Case {
+        Case { entry: entry.into(), feature: feature.into(), nodes, inputs, opset: vp_onnx::DEFAULT_OPSET }
+    }
+    pub fn opset(mut self, v: i64) -> Case {
+        self.opset = v;
+        self
+    }
+    /// names of all values produced by nodes, in node order
+    fn produced(&self) -> Vec<(usize, String)> {
+        let mut out = Vec::new();
+        for (i, n) in self.nodes.iter().enumerate() {
+            for o in &n.outputs {
+                if !o.is_empty() {
+                    out.push((i, o.clone()));
+                }
+            }
+        }
+        out
+    }
+}
+
+// ---------------------------------------------------------------------------
+// JSON round trip (replay artefacts)
+
+fn attr_to_json(a: &Attr) -> Json {
+    match a {
+        Attr::Int(i) => json!({"int": i}),
+        Attr::Float(f) => json!({"float": f}),
+        Attr::Str(s) => json!({"str": s}),
+        Attr::Ints(v) => json!({"ints": v}),
+        Attr::Floats(v) => json!({"floats": v}),
+        Attr::Strs(v) => json!({"strs": v}),
+        Attr::Tensor(t) => {
+            let (kind, vals): (&str, Json) = match &t.data {
+                vp_onnx::TensorData::Raw(b) => ("raw", json!(b)),
+                _ => ("unsupported", Json::Null),
+            };
+            json!({"tensor": {"dims": t.dims, "data_type": t.data_type, kind: vals}})
+        }
+        Attr::Graph(_) => json!({"graph": "unsupported"}),
+    }
+}
+
+fn attr_from_json(j: &Json) -> Attr {
+    let ints = |v: &Json| v.as_array().unwrap().iter().map(|x| x.as_i64().unwrap()).collect::<Vec<_>>();
+    if let Some(v) = j.get("int") {
+        Attr::Int(v.as_i64().unwrap())
+    } else if let Some(v) = j.get("float") {
+        Attr::Float(v.as_f64().unwrap() as f32)
+    } else if let Some(v) = j.get("str") {
+        Attr::Str(v.as_str().unwrap().into())
+    } else if let Some(v) = j.get("ints") {
+        Attr::Ints(ints(v))
+    } else if let Some(v) = j.get("floats") {
+        Attr::Floats(v.as_array().unwrap().iter().map(|x| x.as_f64().unwrap() as f32).collect())
+    } else if let Some(v) = j.get("strs") {
+        Attr::Strs(v.as_array().unwrap().iter().map(|x| x.as_str().unwrap().to_string()).collect())
+    } else if let Some(t) = j.get("tensor") {
+        Attr::Tensor(vp_onnx::Tensor {
+            name: String::new(),
+            dims: ints(&t["dims"]),
+            data_type: t["data_type"].as_i64().unwrap() as i32,
+            data: vp_onnx::TensorData::Raw(t["raw"].as_array().unwrap().iter().map(|x| x.as_u64().unwrap() as u8).collect()),
+        })
+    } else {
+        vp_core::machinery_error("C10 replay: unsupported attribute")
+    }
+}
+
+pub fn case_to_json(c: &Case) -> Json {
+    json!({
+        "entry": c.entry,
+        "feature": c.feature,
+        "opset": c.opset,
+        "nodes": c.nodes.iter().map(|n| json!({
+            "op_type": n.op_type, "domain": n.domain, "inputs": n.inputs, "outputs": n.outputs,
+            "attrs": n.attrs.iter().map(|(k, a)| json!([k, attr_to_json(a)])).collect::<Vec<_>>(),
+        })).collect::<Vec<_>>(),
+        "inputs": c.inputs.iter().map(|t| json!({
+            "name": t.name, "dtype": t.dtype, "shape": t.shape, "init": t.init,
+            "data": match &t.data { Data::F(v) => json!({"f": v}), Data::I(v) => json!({"i": v}) },
+        })).collect::<Vec<_>>(),
+    })
+}
+
+pub fn case_from_json(j: &Json) -> Case {
+    let s = |v: &Json| v.as_str().unwrap_or("").to_string();
+    let strs = |v: &Json| v.as_array().unwrap().iter().map(|x| x.as_str().unwrap().to_string()).collect::<Vec<_>>();
+    Case {
+        entry: s(&j["entry"]),
+        feature: s(&j["feature"]),
+        opset: j["opset"].as_i64().unwrap_or(vp_onnx::DEFAULT_OPSET),
+        nodes: j["nodes"]
+            .as_array()
+            .unwrap()
+            .iter()
+            .map(|n| Node {
+                op_type: s(&n["op_type"]),
+                domain: s(&n["domain"]),
+                name: format!("{}_{}", s(&n["op_type"]), strs(&n["outputs"]).first().cloned().unwrap_or_default()),
+                inputs: strs(&n["inputs"]),
+                outputs: strs(&n["outputs"]),
+                attrs: n["attrs"].as_array().unwrap().iter().map(|kv| (s(&kv[0]), attr_from_json(&kv[1]))).collect(),
+            })
+            .collect(),
+        inputs: j["inputs"]
+            .as_array()
+            .unwrap()
+            .iter()
+            .map(|t| TIn {
+                name: s(&t["name"]),
+                dtype: t["dtype"].as_i64().unwrap() as i32,
+                shape: t["shape"].as_array().unwrap().iter().map(|x| x.as_u64().unwrap() as usize).collect(),
+                init: t["init"].as_bool().unwrap(),
+                data: if let Some(f) = t["data"].get("f") {
+                    Data::F(f.as_array().unwrap().iter().map(|x| x.as_f64().map(|v| v as f32).unwrap_or(f32::NAN)).collect())
+                } else {
+                    Data::I(t["data"]["i"].as_array().unwrap().iter().map(|x| x.as_i64().unwrap()).collect())
+                },
+            })
+            .collect(),
+    }
+}
+
+// ---------------------------------------------------------------------------
+// Variants (fixed/symbolic masks and symbol naming)
+
+#[derive(Clone, Copy, Debug, PartialEq, Eq)]
+pub enum Naming {
+    /// every symbolic dim has its own symbol
+    Distinct,
+    /// symbolic dims of equal size share a symbol
+    ByValue,
+}
+
+#[derive(Clone, Debug)]
+pub struct Variant {
+    /// one flag per dimension of every graph input (in input order): true = symbolic
+    pub mask: Vec<bool>,
+    pub naming: Naming,
+}
+
+fn graph_input_dims(c: &Case) -> usize {
+    c.inputs.iter().filter(|t| !t.init).map(|t| t.shape.len()).sum()
+}
+
+/// Maximum number of input dims for which all 2^n masks are enumerated.
+const FULL_MASK_DIMS: usize = 8;
+
+fn variants(c: &Case) -> (Vec<Variant>, bool) {
+    let n = graph_input_dims(c);
+    let mut masks: Vec<Vec<bool>> = Vec::new();
+    let full = n <= FULL_MASK_DIMS;
+    if full {
+        for m in 0u32..(1u32 << n) {
+            masks.push((0..n).map(|i| m >> i & 1 == 1).collect());
+        }
+    } else {
+        // all-fixed, all-symbolic, and every single-dim flip of both
+        masks.push(vec![false; n]);
+        masks.push(vec![true; n]);
+        for i in 0..n {
+            let mut a = vec![false; n];
+            a[i] = true;
+            masks.push(a);
+            let mut b = vec![true; n];
+            b[i] = false;
+            masks.push(b);
+        }
+    }
+    let mut out = Vec::new();
+    for mask in masks {
+        let nsym = mask.iter().filter(|b| **b).count();
+        out.push(Variant { mask: mask.clone(), naming: Naming::Distinct });
+        if nsym >= 2 {
+            out.push(Variant { mask, naming: Naming::ByValue });
+        }
+    }
+    (out, full)
+}
+
+/// Build the ONNX graph of a variant and the symbol environment it implies.
+fn build(c: &Case, v: &Variant) -> (Graph, Vec<(String, i64)>) {
+    let mut g = Graph::new("c10");
+    g.nodes = c.nodes.clone();
+    let mut env: Vec<(String, i64)> = Vec::new();
+    let mut k = 0usize;
+    for (ii, t) in c.inputs.iter().enumerate() {
+        if t.init {
+            let dims: Vec<i64> = t.shape.iter().map(|d| *d as i64).collect();
+            let tensor = match (&t.data, t.dtype) {
+                (Data::F(v), dtype::FLOAT) => vp_onnx::Tensor::f32(&t.name, &dims, v),
+                (Data::F(v), dtype::DOUBLE) => vp_onnx::Tensor::f64(&t.name, &dims, &v.iter().map(|x| *x as f64).collect::<Vec<_>>()),
+                (Data::I(v), dtype::INT64) => vp_onnx::Tensor::i64(&t.name, &dims, v),
+                (Data::I(v), dtype::INT32) => vp_onnx::Tensor::i32(&t.name, &dims, &v.iter().map(|x| *x as i32).collect::<Vec<_>>()),
+                (Data::I(v), dtype::BOOL) => vp_onnx::Tensor::bool(&t.name, &dims, &v.iter().map(|x| *x != 0).collect::<Vec<_>>()),
+                (Data::I(v), dtype::UINT8) => vp_onnx::Tensor::u8(&t.name, &dims, &v.iter().map(|x| *x as u8).collect::<Vec<_>>()),
+                (Data::I(v), dtype::INT8) => vp_onnx::Tensor::i8(&t.name, &dims, &v.iter().map(|x| *x as i8).collect::<Vec<_>>()),
+                _ => vp_core::machinery_error(&format!("C10: unsupported initializer dtype {} for {}", t.dtype, t.name)),
+            };
+            g.initializers.push(tensor);
+        } else {
+            let mut dims = Vec::new();
+            for (ax, d) in t.shape.iter().enumerate() {
+                if v.mask[k] {
+                    let name = match v.naming {
+                        Naming::Distinct => format!("d{ii}_{ax}"),
+                        Naming::ByValue => format!("n{d}"),
+                    };
+                    if !env.iter().any(|(n, _)| *n == name) {
+                        env.push((name.clone(), *d as i64));
+                    }
+                    dims.push(Dim::Sym(name));
+                } else {
+                    dims.push(Dim::Fixed(*d as i64));
+                }
+                k += 1;
+            }
+            g.inputs.push(ValueInfo::new(&t.name, t.dtype, &dims));
+        }
+    }
+    for (_, name) in c.produced() {
+        g.outputs.push(ValueInfo::untyped(&name));
+    }
+    (g, env)
+}
+
+// ---------------------------------------------------------------------------
+// Execution
+
+fn input_value(t: &TIn) -> Value {
+    match (&t.data, t.dtype) {
+        (Data::F(v), _) => Value::FloatTensor(Tensor::from_data(&t.shape, v.clone())),
+        (Data::I(v), dtype::UINT8) => Value::UInt8Tensor(Tensor::from_data(&t.shape, v.iter().map(|x| *x as u8).collect::<Vec<_>>())),
+        (Data::I(v), dtype::INT8) => Value::Int8Tensor(Tensor::from_data(&t.shape, v.iter().map(|x| *x as i8).collect::<Vec<_>>())),
+        (Data::I(v), _) => Value::Int32Tensor(Tensor::from_data(
+            &t.shape,
+            v.iter().map(|x| (*x).clamp(i32::MIN as i64, i32::MAX as i64) as i32).collect::<Vec<_>>(),
+        )),
+    }
+}
+
+/// Executed tensor reduced to what the comparison needs.
+#[derive(Clone, Debug, PartialEq)]
+pub struct Actual {
+    pub shape: Vec<usize>,
+    pub values: Vec<f64>,
+    pub dtype: &'static str,
+}
+
+fn actual_of(v: &Value) -> Option<Actual> {
+    Some(match v {
+        Value::FloatTensor(t) => Actual { shape: t.shape().to_vec(), values: t.iter().map(|x| *x as f64).collect(), dtype: "f32" },
+        Value::Int32Tensor(t) => Actual { shape: t.shape().to_vec(), values: t.iter().map(|x| *x as f64).collect(), dtype: "i32" },
+        Value::Int8Tensor(t) => Actual { shape: t.shape().to_vec(), values: t.iter().map(|x| *x as f64).collect(), dtype: "i8" },
+        Value::UInt8Tensor(t) => Actual { shape: t.shape().to_vec(), values: t.iter().map(|x| *x as f64).collect(), dtype: "u8" },
+        Value::Sequence(_) => return None,
+    })
+}
+
+thread_local! {
+    static POOL: Arc<ThreadPool> = Arc::new(ThreadPool::with_num_threads(1));
+}
+
+fn load(bytes: Vec<u8>) -> Result<Model, String> {
+    let mut opts = ModelOptions::with_all_ops();
+    opts.enable_optimization(false);
+    opts.load(bytes).map_err(|e| e.to_string())
+}
+
+/// What inference said about one value, in a comparable/printable form.
+#[derive(Clone, Debug, PartialEq)]
+pub enum Inferred {
+    Nothing,
+    Const(Constant),
+    Dims(Vec<Dimension>),
+}
+
+fn inferred_string(i: &Inferred) -> String {
+    match i {
+        Inferred::Nothing => "nothing".into(),
+        Inferred::Const(c) => format!("constant {c:?}"),
+        Inferred::Dims(d) => format!(
+            "shape [{}]",
+            d.iter()
+                .map(|d| match d {
+                    Dimension::Fixed(n) => n.to_string(),
+                    Dimension::Symbolic(s) => format!("\"{s}\""),
+                })
+                .collect::<Vec<_>>()
+                .join(", ")
+        ),
+    }
+}
+
+struct InferOut {
+    per_value: Vec<Inferred>,
+}
+
+fn run_inference(model: &Model, names: &[(usize, String)]) -> Result<InferOut, String> {
+    let graph = model.verif_graph();
+    let res = vp_core::catch(|| infer_shapes(graph, InferShapeOptions::default()));
+    let res = match res {
+        Err(p) => return Err(format!("panic: {p}")),
+        Ok(Err(e)) => return Err(format!("{e}")),
+        Ok(Ok(r)) => r,
+    };
+    let mut per_value = Vec::new();
+    for (_, name) in names {
+        let id = model.find_node(name).ok_or_else(|| format!("value {name} missing in graph"))?;
+        per_value.push(match res.shapes.get(&id) {
+            None => Inferred::Nothing,
+            Some(Shape::Constant { index }) => Inferred::Const(res.constants[*index].clone()),
+            Some(Shape::Shape(d)) => Inferred::Dims(d.clone()),
+        });
+    }
+    Ok(InferOut { per_value })
+}
+
+fn run_model(model: &Model, c: &Case, names: &[(usize, String)]) -> Result<Vec<Option<Actual>>, String> {
+    let mut inputs: Vec<(rten::NodeId, ValueOrView)> = Vec::new();
+    for t in c.inputs.iter().filter(|t| !t.init) {
+        let id = model.find_node(&t.name).ok_or_else(|| format!("input {} missing", t.name))?;
+        inputs.push((id, ValueOrView::Value(input_value(t))));
+    }
+    let out_ids: Vec<rten::NodeId> =
+        names.iter().map(|(_, n)| model.find_node(n).ok_or_else(|| format!("output {n} missing"))).collect::<Result<_, _>>()?;
+    let opts = POOL.with(|p| RunOptions::default().with_thread_pool(Some(p.clone())));
+    match vp_core::catch(|| model.run(inputs, &out_ids, Some(opts))) {
+        Err(p) => Err(format!("panic: {p}")),
+        Ok(Err(e)) => Err(format!("error: {e}")),
+        Ok(Ok(vals)) => Ok(vals.iter().map(actual_of).collect()),
+    }
+}
+
+// ---------------------------------------------------------------------------
+// Comparison
+
+#[derive(Default)]
+pub struct Stats {
+    pub cases: u64,
+    pub variants: u64,
+    pub load_errors: u64,
+    pub infer_errors: u64,
+    pub run_errors: u64,
+    pub run_panics: u64,
+    pub variants_run_ok: u64,
+    pub values_compared: u64,
+    pub values_without_claim: u64,
+    pub rank_claims: u64,
+    pub fixed_dim_claims: u64,
+    pub sym_dim_claims: u64,
+    pub sym_dims_unevaluable: u64,
+    pub sym_dims_ambiguous_print: u64,
+    pub const_claims: u64,
+    pub const_elems: u64,
+    pub double_load_checks: u64,
+    pub partial_mask_cases: u64,
+}
+
+impl Stats {
+    fn add(&mut self, o: &Stats) {
+        self.cases += o.cases;
+        self.variants += o.variants;
+        self.load_errors += o.load_errors;
+        self.infer_errors += o.infer_errors;
+        self.run_errors += o.run_errors;
+        self.run_panics += o.run_panics;
+        self.variants_run_ok += o.variants_run_ok;
+        self.values_compared += o.values_compared;
+        self.values_without_claim += o.values_without_claim;
+        self.rank_claims += o.rank_claims;
+        self.fixed_dim_claims += o.fixed_dim_claims;
+        self.sym_dim_claims += o.sym_dim_claims;
+        self.sym_dims_unevaluable += o.sym_dims_unevaluable;
+        self.sym_dims_ambiguous_print += o.sym_dims_ambiguous_print;
+        self.const_claims += o.const_claims;
+        self.const_elems += o.const_elems;
+        self.double_load_checks += o.double_load_checks;
+        self.partial_mask_cases += o.partial_mask_cases;
+    }
+    fn claims(&self) -> u64 {
+        self.rank_claims + self.const_claims
+    }
+    fn to_json(&self) -> Json {
+        json!({
+            "cases": self.cases, "variants": self.variants, "load_errors": self.load_errors,
+            "infer_errors": self.infer_errors, "run_errors": self.run_errors, "run_panics": self.run_panics,
+            "variants_run_ok": self.variants_run_ok, "values_compared": self.values_compared,
+            "values_without_claim": self.values_without_claim, "rank_claims": self.rank_claims,
+            "fixed_dim_claims": self.fixed_dim_claims, "sym_dim_claims": self.sym_dim_claims,
+            "sym_dims_unevaluable": self.sym_dims_unevaluable, "sym_dims_ambiguous_print": self.sym_dims_ambiguous_print,
+            "const_claims": self.const_claims, "const_elems": self.const_elems,
+            "double_load_checks": self.double_load_checks, "cases_with_partial_mask_set": self.partial_mask_cases,
+        })
+    }
+}
+
+pub struct Contradiction {
+    pub kind: &'static str,
+    pub detail: String,
+}
+
+thread_local! {
+    static PARSE_CACHE: std::cell::RefCell<HashMap<String, Result<Option<PExpr>, String>>> = std::cell::RefCell::new(HashMap::new());
+}
+
+fn parse_cached(s: &str) -> Result<Option<PExpr>, String> {
+    PARSE_CACHE.with(|c| {
+        let mut c = c.borrow_mut();
+        if let Some(r) = c.get(s) {
+            return r.clone();
+        }
+        let r = se::parse_display(s);
+        c.insert(s.to_string(), r.clone());
+        r
+    })
+}
+
+fn compare(inf: &Inferred, act: &Actual, env: &[(String, i64)], st: &mut Stats) -> Option<Contradiction> {
+    st.values_compared += 1;
+    match inf {
+        Inferred::Nothing => {
+            st.values_without_claim += 1;
+            None
+        }
+        Inferred::Const(c) => {
+            st.const_claims += 1;
+            let (rank, vals): (usize, &[i32]) = match c {
+                Constant::Scalar(v) => (0, std::slice::from_ref(v)),
+                Constant::Vector(v) => (1, v.as_slice()),
+            };
+            if act.shape.len() != rank {
+                return Some(Contradiction {
+                    kind: "inferred constant has a different rank than the executed value",
+                    detail: format!("inferred {c:?} (rank {rank}), executed shape {:?} values {:?}", act.shape, act.values),
+                });
+            }
+            if rank == 1 && act.shape[0] != vals.len() {
+                return Some(Contradiction {
+                    kind: "inferred constant vector has a different length than the executed value",
+                    detail: format!("inferred {c:?}, executed shape {:?} values {:?}", act.shape, act.values),
+                });
+            }
+            for (i, v) in vals.iter().enumerate() {
+                st.const_elems += 1;
+                if act.values[i] != *v as f64 {
+                    return Some(Contradiction {
+                        kind: "inferred constant differs from the executed value",
+                        detail: format!("inferred {c:?}, executed ({}) shape {:?} values {:?}", act.dtype, act.shape, act.values),
+                    });
+                }
+            }
+            None
+        }
+        Inferred::Dims(dims) => {
+            st.rank_claims += 1;
+            if dims.len() != act.shape.len() {
+                return Some(Contradiction {
+                    kind: "inferred rank differs from the executed rank",
+                    detail: format!("inferred {}, executed shape {:?}", inferred_string(inf), act.shape),
+                });
+            }
+            for (ax, d) in dims.iter().enumerate() {
+                match d {
+                    Dimension::Fixed(n) => {
+                        st.fixed_dim_claims += 1;
+                        if *n != act.shape[ax] {
+                            return Some(Contradiction {
+                                kind: "inferred fixed dim differs from the executed dim",
+                                detail: format!("axis {ax}: inferred {}, executed shape {:?}", inferred_string(inf), act.shape),
+                            });
+                        }
+                    }
+                    Dimension::Symbolic(s) => match parse_cached(s) {
+                        Err(e) => vp_core::machinery_error(&format!("C10: cannot parse symbolic dim: {e}")),
+                        Ok(None) => st.sym_dims_ambiguous_print += 1,
+                        Ok(Some(p)) => {
+                            let get = |n: &str| env.iter().find(|(k, _)| k == n).map(|(_, v)| *v);
+                            match se::eval_pexpr(&p, &get) {
+                                Err(_) => st.sym_dims_unevaluable += 1,
+                                Ok(val) => {
+                                    st.sym_dim_claims += 1;
+                                    if val != act.shape[ax] as i64 {
+                                        return Some(Contradiction {
+                                            kind: "inferred symbolic dim evaluates to a different size than the executed dim",
+                                            detail: format!(
+                                                "axis {ax}: \"{s}\" = {val} under {:?}; inferred {}, executed shape {:?}",
+                                                env, inferred_string(inf), act.shape
+                                            ),
+                                        });
+                                    }
+                                }
+                            }
+                        }
+                    },
+                }
+            }
+            None
+        }
+    }
+}
+
+// ---------------------------------------------------------------------------
+
+#[derive(Default)]
+pub struct EntryAcc {
+    pub stats: Stats,
+    pub viol: BTreeMap<String, (Json, String, u64)>,
+    pub obs: BTreeMap<String, u64>,
+    pub samples: Vec<Json>,
+    pub outcomes: std::collections::HashSet<u64>,
+}
+
+fn variant_json(c: &Case, v: &Variant) -> Json {
+    json!({"case": case_to_json(c), "mask": v.mask, "naming": match v.naming { Naming::Distinct => "distinct", Naming::ByValue => "by_value" }})
+}
+
+/// Check one variant. Returns true if the model executed.
+fn check_variant(c: &Case, v: &Variant, acc: &mut EntryAcc, double_load: bool) -> bool {
+    acc.stats.variants += 1;
+    let (g, env) = build(c, v);
+    let bytes = g.to_model_bytes(c.opset);
+    let names = c.produced();
+    let model = match load(bytes.clone()) {
+        Ok(m) => m,
+        Err(e) => {
+            acc.stats.load_errors += 1;
+            *acc.obs.entry(format!("load error in entry {}: {}", c.entry, vp_core::truncate(&e, 80))).or_insert(0) += 1;
+            return false;
+        }
+    };
+    let inf = match run_inference(&model, &names) {
+        Ok(i) => Some(i),
+        Err(e) => {
+            acc.stats.infer_errors += 1;
+            if e.starts_with("panic") {
+                *acc.obs.entry(format!("infer_shapes panicked in entry {}: {}", c.entry, vp_core::truncate(&e, 80))).or_insert(0) += 1;
+            }
+            None
+        }
+    };
+    if double_load {
+        if let (Some(i1), Ok(m2)) = (&inf, load(bytes)) {
+            acc.stats.double_load_checks += 1;
+            if let Ok(i2) = run_inference(&m2, &names) {
+                if i1.per_value != i2.per_value {
+                    let sig = "infer_shapes: two loads of the same model give different inference results".to_string();
+                    let detail = format!("{:?} vs {:?}", i1.per_value.iter().map(inferred_string).collect::<Vec<_>>(), i2.per_value.iter().map(inferred_string).collect::<Vec<_>>());
+                    record(acc, sig, || (variant_json(c, v), detail));
+                }
+            }
+        }
+    }
+    let acts = match run_model(&model, c, &names) {
+        Ok(a) => a,
+        Err(e) => {
+            if e.starts_with("panic") {
+                acc.stats.run_panics += 1;
+                *acc.obs.entry(format!("execution panicked in entry {}: {}", c.entry, vp_core::truncate(&e, 80))).or_insert(0) += 1;
+            } else {
+                acc.stats.run_errors += 1;
+            }
+            return false;
+        }
+    };
+    acc.stats.variants_run_ok += 1;
+    let Some(inf) = inf else { return true };
+    let mut outcome = std::collections::hash_map::DefaultHasher::new();
+    use std::hash::{Hash, Hasher};
+    c.entry.hash(&mut outcome);
+    for (k, ((node_idx, name), (i, a))) in names.iter().zip(inf.per_value.iter().zip(acts.iter())).enumerate() {
+        let _ = k;
+        let Some(a) = a else { continue };
+        inferred_string(i).hash(&mut outcome);
+        a.shape.hash(&mut outcome);
+        if let Some(con) = compare(i, a, &env, &mut acc.stats) {
+            let op = &c.nodes[*node_idx].op_type;
+            let sig = format!("{op}: {} [{}]", con.kind, c.feature);
+            let detail = format!(
+                "entry {}; value {name} produced by {op}; {}; symbols {:?}; inputs {}",
+                c.entry,
+                con.detail,
+                env,
+                c.inputs.iter().map(|t| format!("{}{}:{:?}", t.name, if t.init { "(init)" } else { "" }, t.shape)).collect::<Vec<_>>().join(" ")
+            );
+            record(acc, sig, || (variant_json(c, v), detail));
+            // Values downstream of a contradicted value are not judged.
+            break;
+        }
+    }
+    acc.outcomes.insert(outcome.finish());
+    if acc.samples.len() < 2 && inf.per_value.iter().any(|i| !matches!(i, Inferred::Nothing)) && v.mask.iter().any(|b| *b) {
+        acc.samples.push(json!({
+            "entry": c.entry,
+            "nodes": c.nodes.iter().map(|n| format!("{}({}) -> {}", n.op_type, n.inputs.join(","), n.outputs.join(","))).collect::<Vec<_>>(),
+            "inputs": c.inputs.iter().map(|t| format!("{}{} {:?}", t.name, if t.init { " (initializer)" } else { "" }, t.shape)).collect::<Vec<_>>(),
+            "symbols": env.iter().map(|(k, v)| format!("{k}={v}")).collect::<Vec<_>>(),
+            "inferred": names.iter().zip(&inf.per_value).map(|((_, n), i)| format!("{n}: {}", inferred_string(i))).collect::<Vec<_>>(),
+            "executed": names.iter().zip(&acts).map(|((_, n), a)| format!("{n}: {:?}", a.as_ref().map(|a| (&a.shape, if a.values.len() <= 6 { a.values.clone() } else { vec![] })))).collect::<Vec<_>>(),
+        }));
+    }
+    true
+}
+
+fn record(acc: &mut EntryAcc, sig: String, case: impl FnOnce() -> (Json, String)) {
+    match acc.viol.get_mut(&sig) {
+        Some(e) => e.2 += 1,
+        None => {
+            let (c, d) = case();
+            acc.viol.insert(sig, (c, d, 1));
+        }
+    }
+}
+
+pub fn check_case(c: &Case, acc: &mut EntryAcc, tier: Tier) {
+    acc.stats.cases += 1;
+    let (vs, full) = variants(c);
+    if !full {
+        acc.stats.partial_mask_cases += 1;
+    }
+    for (i, v) in vs.iter().enumerate() {
+        // Two loads per variant (uncontrolled HashMap order inside rten, DESIGN 2.6):
+        // every variant in the thorough tier, every 8th in the quick tier.
+        let double = tier.is_thorough() || i % 8 == 0;
+        let ran = check_variant(c, v, acc, double);
+        if !ran && i == 0 {
+            // The concrete inputs are the same for every variant; if the
+            // all-fixed variant does not load or execute, neither do the others.
+            break;
+        }
+    }
+}
+
+// ---------------------------------------------------------------------------
+
+pub struct Entry {
+    pub name: String,
+    /// Entries whose cases are expected never to execute successfully or never
+    /// to yield an inference claim are flagged so that the vacuity guard skips them.
+    pub may_be_vacuous: bool,
+    pub generate: Box<dyn Fn(Tier, &mut dyn FnMut(Case)) + Send + Sync>,
+}
+
+pub fn run(ctx: Ctx) -> ! {
+    if let Some(path) = ctx.replay.clone() {
+        let j = vp_core::read_replay_case(&path);
+        let c = case_from_json(&j["case"]);
+        let mask: Vec<bool> = j["mask"].as_array().map(|a| a.iter().map(|b| b.as_bool().unwrap_or(false)).collect()).unwrap_or_default();
+        let naming = if j["naming"].as_str() == Some("by_value") { Naming::ByValue } else { Naming::Distinct };
+        let mut acc = EntryAcc::default();
+        acc.stats.cases = 1;
+        if mask.len() != graph_input_dims(&c) {
+            vp_core::machinery_error("C10 replay: mask length does not match the case");
+        }
+        let v = Variant { mask, naming };
+        check_variant(&c, &v, &mut acc, true);
+        for s in &acc.samples {
+            println!("replay: {s}");
+        }
+        finish(ctx, vec![("replay".into(), false, acc)], 1);
+    }
+
+    let entries = c10_catalogue::entries(ctx.tier);
+    let tier = ctx.tier;
+    let n = entries.len();
+    let accs = vp_core::par::map(n, |i| {
+        let mut acc = EntryAcc::default();
+        (entries[i].generate)(tier, &mut |c: Case| check_case(&c, &mut acc, tier));
+        acc
+    });
+    let named: Vec<(String, bool, EntryAcc)> = entries.iter().zip(accs).map(|(e, a)| (e.name.clone(), e.may_be_vacuous, a)).collect();
+    finish(ctx, named, n)
+}
+
+fn finish(ctx: Ctx, accs: Vec<(String, bool, EntryAcc)>, n_entries: usize) -> ! {
+    let replaying = ctx.replay.is_some();
+    let mut total = Stats::default();
+    let mut per_entry = serde_map();
+    let mut vacuous: Vec<String> = Vec::new();
+    let mut samples: Vec<Json> = Vec::new();
+    let mut outcomes = std::collections::HashSet::new();
+    let mut viol: BTreeMap<String, (Json, String, u64)> = BTreeMap::new();
+    let mut by_sig: BTreeMap<String, u64> = BTreeMap::new();
+    for (name, may_be_vacuous, a) in accs {
+        total.add(&a.stats);
+        per_entry.insert(
+            name.clone(),
+            json!([a.stats.cases, a.stats.variants, a.stats.variants_run_ok, a.stats.claims(), a.stats.sym_dim_claims, a.stats.const_claims]),
+        );
+        if !replaying && !may_be_vacuous && (a.stats.variants_run_ok == 0 || a.stats.claims() == 0) {
+            vacuous.push(format!("{name} (cases {}, executed {}, claims {})", a.stats.cases, a.stats.variants_run_ok, a.stats.claims()));
+        }
+        for (k, n) in a.obs {
+            ctx.observe_n(&k, n);
+        }
+        for (sig, (c, d, n)) in a.viol {
+            *by_sig.entry(sig.clone()).or_insert(0) += n;
+            match viol.get_mut(&sig) {
+                Some(e) => e.2 += n,
+                None => {
+                    viol.insert(sig, (c, d, n));
+                }
+            }
+        }
+        // one sample per entry, up to 40 overall
+        if samples.len() < 40 {
+            if let Some(s) = a.samples.into_iter().next() {
+                samples.push(s);
+            }
+        }
+        outcomes.extend(a.outcomes);
+    }
+    for (sig, (case, detail, n)) in &viol {
+        ctx.violation(sig.clone(), case.clone(), detail.clone());
+        for _ in 1..*n {
+            ctx.violation(sig.clone(), Json::Null, "");
+        }
+    }
+    if !vacuous.is_empty() {
+        ctx.machinery(&format!("C10: vacuous catalogue entries (no successful execution or no inference claim): {}", vacuous.join("; ")));
+    }
+    println!(
+        "C10 summary: entries={} cases={} variants={} executed_ok={} values_compared={} rank_claims={} fixed_dims={} sym_dims={} const_claims={} (elems {}) no_claim={} run_errors={} infer_errors={} signatures={}",
+        n_entries,
+        total.cases,
+        total.variants,
+        total.variants_run_ok,
+        total.values_compared,
+        total.rank_claims,
+        total.fixed_dim_claims,
+        total.sym_dim_claims,
+        total.const_claims,
+        total.const_elems,
+        total.values_without_claim,
+        total.run_errors,
+        total.infer_errors,
+        viol.len()
+    );
+    if samples.is_empty() {
+        samples.push(json!({"note": "no sample (replay without inference claim)"}));
+    }
+    let coverage = json!({
+        "rule": "every catalogue case x every fixed/symbolic mask of the graph-input dims x symbol naming {distinct, equal sizes share a symbol}; each variant: ONNX bytes -> Model::load (optimization off) -> infer_shapes(graph) and Model::run on the concrete inputs; every produced value: inferred rank/fixed dims/symbolic dims (own evaluator)/constants vs executed tensor; only contradictions count",
+        "exhaustive": true,
+        "evaluations": total.variants,
+        "distinct_nontrivial": outcomes.len(),
+        "catalogue_entries": n_entries,
+        "totals": total.to_json(),
+        "per_entry [cases, variants, executed_ok, rank+const claims, symbolic dim claims, const claims]": Json::Object(per_entry),
+        "axes": c10_catalogue::axes_description(ctx.tier),
+        "mask_rule": format!("all 2^n masks when a case has <= {FULL_MASK_DIMS} graph-input dims, otherwise all-fixed, all-symbolic and every single flip of both (counted in cases_with_partial_mask_set)"),
+        "violating_variants_by_signature": by_sig,
+        "samples": samples,
+    });
+    ctx.finish(
+        "exploration",
+        coverage,
+        vec![
+            "Symbolic dims are returned by rten as printed strings; they are re-parsed by the harness. Printouts with more than one structural reading are not evaluated (counted as sym_dims_ambiguous_print).".into(),
+            "Symbolic dims mentioning synthetic unknown_N symbols, or whose evaluation fails (division by zero, Broadcast precondition), claim nothing.".into(),
+            "Each model is loaded once per variant (twice where the double-load check applies); std HashMap iteration order inside rten is not scripted (DESIGN 2.6).".into(),
+            "int64/bool tensors are int32 inside rten; values are compared numerically, element types are property C12's business.".into(),
+        ],
+    )
+}
+
+fn serde_map() -> vp_core::serde_json::Map<String, Json> {
+    vp_core::serde_json::Map::new()
 }
